@@ -4,7 +4,7 @@ string table.
 
 Helper files: HostilePbfBase.lean (fold invariants, string table, info/tags/members) and
 HostilePbfObj.lean (node/way/relation/dense nodes, groups, blocks, files).  The invariant carried
-through every loop is `ObjOk o` = all strings of `o` are ≤ 1024 bytes ∧ `o` is not a changeset.
+through every loop is `ObjOk o` = all strings of `o` are ≤ 1024 bytes and NUL-free ∧ `o` is not a changeset.
 -/
 import Osmium.Model.HostilePbf
 import Osmium.Lemmas.HostilePbfObj
@@ -19,7 +19,13 @@ open Osmium.Osm Osmium.Pbf Osmium.PbfMsg Osmium.Wire
 theorem decodeBlock_strings_le (r : ROpts) (fs : List Field) (objs : List Object)
     (h : decodeBlock r fs = some objs) :
     ∀ o ∈ objs, ∀ s ∈ strsOf o, s.length ≤ maxOsmStringLength :=
-  fun o ho => (decodeBlock_ok r fs objs h o ho).1
+  fun o ho s hs => ((decodeBlock_ok r fs objs h o ho).1 s hs).1
+
+/-- … and contains no NUL byte: `decode_stringtable` rejects entries with an embedded NUL
+    (repair da64936), the empty default has none -/
+theorem decodeBlock_strings_nulfree (r : ROpts) (fs : List Field) (objs : List Object)
+    (h : decodeBlock r fs = some objs) : ∀ o ∈ objs, NulFree o :=
+  fun o ho s hs => ((decodeBlock_ok r fs objs h o ho).1 s hs).2
 
 theorem decodeFile_allOk (r : ROpts) (bs : Bytes) (h : Header) (objs : List Object)
     (hd : decodeFile noInflate r bs = some (h, objs)) : AllOk objs :=
@@ -30,7 +36,12 @@ theorem decodeFile_allOk (r : ROpts) (bs : Bytes) (h : Header) (objs : List Obje
 theorem decodeFile_strings_le (r : ROpts) (bs : Bytes) (h : Header) (objs : List Object)
     (hd : decodeFile noInflate r bs = some (h, objs)) :
     ∀ o ∈ objs, ∀ s ∈ strsOf o, s.length ≤ maxOsmStringLength :=
-  fun o ho => (decodeFile_allOk r bs h objs hd o ho).1
+  fun o ho s hs => ((decodeFile_allOk r bs h objs hd o ho).1 s hs).1
+
+/-- no string of any object decoded from ANY byte string contains a NUL byte (repair da64936) -/
+theorem decodeFile_strings_nulfree (r : ROpts) (bs : Bytes) (h : Header) (objs : List Object)
+    (hd : decodeFile noInflate r bs = some (h, objs)) : ∀ o ∈ objs, NulFree o :=
+  fun o ho s hs => ((decodeFile_allOk r bs h objs hd o ho).1 s hs).2
 
 /-- the decoder never produces changesets -/
 theorem decodeFile_no_changeset (r : ROpts) (bs : Bytes) (h : Header) (objs : List Object)
